@@ -106,6 +106,70 @@ def check_case(rec, case):
             if not o.ok:
                 report_failure(rec, o, 'cfg_accepts_word', grammar=cf.show(RGm), word=w, after_in_place_change=True)
                 break
+    if case.get('requery'):
+        # the same OBJECT taken through the library's own in-place phases; after each phase membership is asked again
+        # and judged against the CURRENT content of the object (anything cached on the grammar / its alternatives
+        # before the phase would be stale)
+        o = call(adapt.build_cfg, RG)
+        if o.ok:
+            G2 = o.value
+            call(G2.is_chomsky)
+            call(ca.cfg_accepts_word, G2, words[1] if len(words) > 1 else '')
+            for phase in ('cfg_add_new_start_variable_in_place', 'cfg_remove_epsilon_rules_in_place', 'cfg_eliminate_unit_rules_in_place',
+                          'cfg_make_rules_of_length_two_in_place', 'cfg_eliminate_terminals_in_place'):
+                o = call(getattr(ca, phase), G2)
+                if not o.ok:
+                    break
+                for w in words[:14]:
+                    o = call(ca.cfg_accepts_word, G2, w)
+                    if not o.ok:
+                        report_failure(rec, o, 'cfg_accepts_word', word=w, after=phase)
+                        break
+                call(G2.is_chomsky)
+            # and after a direct in-place edit of one alternative's symbol list
+            if G2.R:
+                alt = G2.R[-1].alternative
+                if alt.symbols:
+                    alt.symbols[:] = alt.symbols[:-1]
+                    for w in words[:14]:
+                        o = call(ca.cfg_accepts_word, G2, w)
+                        if not o.ok:
+                            report_failure(rec, o, 'cfg_accepts_word', word=w, after='alternative edited in place')
+                            break
+        # symbol-KIND changes on the alternatives of one object (same length): a terminal rule becomes a unit rule,
+        # a variable of a binary rule becomes a terminal, the start variable appears on a right hand side; membership
+        # after each edit is judged against the current content
+        import random as _random
+        from gambatools.cfg import Variable as _V, Terminal as _T
+        er = _random.Random(repr(RG))
+        o = call(adapt.build_cfg, RG)
+        if o.ok and RG[2]:
+            G3 = o.value
+            call(ca.cfg_accepts_word, G3, words[-1])
+            Vs, Ts = sorted(RG[0]), sorted(RG[1])
+            for step in range(4):
+                rule = er.choice(G3.R)
+                alt = rule.alternative
+                if not alt.symbols:
+                    continue
+                i = er.randrange(len(alt.symbols))
+                old = alt.symbols[i]
+                if isinstance(old, _V) and Ts and er.random() < 0.6:
+                    new = _T(er.choice(Ts))
+                elif isinstance(old, _T) or er.random() < 0.5:
+                    new = _V(er.choice([RG[3]] + Vs))
+                else:
+                    new = _V(RG[3])
+                if er.random() < 0.5:
+                    alt.symbols[i] = new
+                else:
+                    alt.symbols = alt.symbols[:i] + [new] + alt.symbols[i + 1:]
+                rec.counters['in_place_symbol_kind_edit'] += 1
+                for w in words[:20]:
+                    o = call(ca.cfg_accepts_word, G3, w)
+                    if not o.ok:
+                        report_failure(rec, o, 'cfg_accepts_word', word=w, after='symbol kind edited in place', step=step)
+                        break
     if case.get('via_chomsky'):
         # CNF grammars produced by the library's own conversion are CYK-table workloads too
         o = call(ca.cfg_to_chomsky, adapt.build_cfg(RG))
@@ -164,7 +228,7 @@ def gen_cases(rec, rng, tier):
     for _ in range(300 if thorough else 30):
         nv = rng.randint(1, 6)
         RG = cfgg.random_cnf(rng, nv, rng.randint(0, 8), nt=rng.randint(1, 3))
-        yield {'cls': 'random_cnf', 'ref': RG, 'n': (6 if thorough else 5) if len(RG[1]) <= 2 else 4}
+        yield {'cls': 'random_cnf', 'ref': RG, 'n': (6 if thorough else 5) if len(RG[1]) <= 2 else 4, 'requery': True}
 
 
 def run(rec, rng, tier):
